@@ -130,14 +130,17 @@ func runC02(c *caseWriter) (string, bool, map[string]int) {
 	js := func(text, wire string) { emit(c, "jsurl", text, wire) }
 
 	// ------------------------------------------------------------ (0) recorded findings: canonical witnesses
-	js(`<a href="{{.A}}{{.B}}">x</a>`, c02Map("A", "java", "B", "script:alert(1)"))                                                               // D2
-	js(`<a href="{{.S}}://{{.H}}/x">x</a>`, c02Map("S", "javascript", "H", "%0aalert(1)"))                                                        // D2
-	cc(`<link rel="alternate stylesheet" href="{{.}}">`, c02Str("//"+mkA+"/x.css"))                                                              // D3
-	js(`{{define "h"}}{{.}}{{end}}<a href="/foo/{{template "h" .}}">x</a><a href="{{template "h" .}}">y</a>`, c02Str("javascript:alert(1)"))      // D4
+	js(`<a href="{{.A}}{{.B}}">x</a>`, c02Map("A", "java", "B", "script:alert(1)"))                                                                    // D2
+	js(`<a href="{{.S}}://{{.H}}/x">x</a>`, c02Map("S", "javascript", "H", "%0aalert(1)"))                                                             // D2
+	cc(`<link rel="alternate stylesheet" href="{{.}}">`, c02Str("//"+mkA+"/x.css"))                                                                    // D3
+	js(`{{define "h"}}{{.}}{{end}}<a href="/foo/{{template "h" .}}">x</a><a href="{{template "h" .}}">y</a>`, c02Str("javascript:alert(1)"))           // D4
 	cc(`{{define "Y"}}<b {{end}}{{define "X"}}{{template "Y"}}>k</b>{{template "Y"}}{{.}}>z</b>{{end}}{{template "X" .}}`, c02Str("onmouseover="+mkA)) // D1
-	cc(`<script>var x = "<!--<script>";</script>{{.}}<b>`, c02Str(mkA))                                                                          // D13
-	js(`<video poster="{{.}}"></video>`, c02Str("javascript:alert(1)"))                                                                          // D34
-	js(`<blockquote cite="{{.}}"></blockquote>`, c02Str("javascript:alert(1)"))                                                                  // D34
+	cc(`<script>var x = "<!--<script>";</script>{{.}}<b>`, c02Str(mkA))                                                                                // D13
+	cc(`<script x="y"</script>{{.}}`, c02Str(mkA))                                                                                                     // D44
+	cc(`<b>k</b><style media="all"</style>{{.}}`, c02Str(mkA))                                                                                         // D44
+	cc(`<script defer</script  >{{.}}<i>t</i>`, c02Str(mkA))                                                                                           // D44
+	js(`<video poster="{{.}}"></video>`, c02Str("javascript:alert(1)"))                                                                                // D34
+	js(`<blockquote cite="{{.}}"></blockquote>`, c02Str("javascript:alert(1)"))                                                                        // D34
 
 	// ------------------------------------------------------------ (1) directed-search seeds first
 	for _, s := range extraSeeds {
